@@ -277,7 +277,9 @@ def run(R, env):
                 okm = a is not None and a[0][0] == "field" and a[0][2] == "monitors" and a[1][0] == "field" and a[1][2] == "account_address_prefix" and a[1][1][0] == "field" and a[1][1][2] == "protocol_chain_config"
                 R.ob("C14.R3", "instantiate:monitors-validated", okm, "monitors stored = %s; expected validate_addresses(msg.monitors, protocol prefix)" % fmt(mon or ("none",))[:140], loc=o["loc"], fn=ic.body.key)
                 den = agg_field(v, "liquid_stake_token_denom") if v[0] == "agg" else None
-                okd = den is not None and any(validated(prog, s_, "denom") is not None for s_ in subterms(den))
+                from engine.analysis import forms as _forms14
+                # (also `validate_denom(x).map(|s| format!("factory/{c}/{s}"))?`: the closure applied to the validated value)
+                okd = den is not None and any(validated(prog, s_, "denom") is not None for f_ in [den] + list(_forms14(prog, den, 2)) for s_ in subterms(f_))
                 R.ob("C14.R3", "instantiate:subdenom-validated", okd, "the LST sub-denom is used without validate_denom", loc=o["loc"], fn=ic.body.key)
     # ------------------------------------------------------------ R4 sectional UpdateConfig
     uc = sites.get("UpdateConfig")
